@@ -467,6 +467,9 @@ def m_bm_opassign(eng, st, callee, a, ty):
         r = x & ~y
     else:
         r = x & y
+    # valid lemma (helps z3 on the frequent `len() != new.len()` tests): for comparable sets,
+    # equal cardinality <=> equal sets
+    st.pc.append((popcount(r, 8) == popcount(x, 8)) == (r == x))
     eng.store(a[0], r)
     return one(unit())
 
